@@ -290,6 +290,11 @@ class RoundTrip(Relation):
         ctx.check(len(P2) == len(P1), 'fixed point | count changes')
         for A, B in zip(P1, P2):
             if not (A == B):
+                if _at_notation_threshold(A, B, p):
+                    # known finding C09-sci-notation-threshold (narrow key)
+                    ctx.fail('fixed point | a Quantity that reads back as '
+                             'exactly 1e-4 deg switches from scientific to '
+                             'positional notation', _diff(A, B))
                 ctx.fail(f'{type(A).__name__} | parse(serialize(P1)) != P1',
                          _diff(A, B))
         text3 = P2.serialize(format='ds9', precision=p)
@@ -303,6 +308,32 @@ class RoundTrip(Relation):
         if len(regs) >= 2 and 'global' in text:
             nt = nt or sp['share'] == 'partly'
         ctx.nontrivial(nt or p <= 6)
+
+
+def _at_notation_threshold(A, B, p):
+    """True when A and B differ ONLY in angular quantities whose value in A
+    is exactly 1e-4 deg (written '1.0..e-04' the first time, positionally -
+    with only p decimals - the second time)."""
+    import astropy.units as u
+    hit = False
+    for par in list(A._params):
+        va, vb = getattr(A, par), getattr(B, par)
+        if isinstance(va, u.Quantity) and not isinstance(
+                va, __import__('astropy.coordinates').coordinates.Angle):
+            if va != vb:
+                k = 2.0 if ('Ellipse' in type(A).__name__
+                            and par != 'angle') else 1.0
+                if abs(va.to_value(u.deg) / k) == 1e-4 and p < 4:
+                    hit = True
+                else:
+                    return False
+        else:
+            try:
+                if np.any(va != vb):
+                    return False
+            except Exception:   # noqa: BLE001
+                return False
+    return hit and dict(A.meta) == dict(B.meta) and dict(A.visual) == dict(B.visual)
 
 
 def _vnorm(v):
